@@ -13,6 +13,7 @@ for f in selftest/mutants/$P/*.patch; do
   git -C /repo apply /verif/$f
   out=$(GOVC_EVIDENCE_DIR=/tmp/govc-selftest-evidence bin/govc check $P --tier quick --no-replay 2>&1); rc=$?
   git -C /repo checkout -- . 
+  if echo "$out" | grep -q 'replay/.*/machinery.json'; then echo "MUTANT $P/$n: INVALID (does not build or load: machinery error, not a named obligation)"; fail=1; continue; fi
   if [ $rc -eq 1 ]; then echo "MUTANT $P/$n: caught: $(echo "$out" | grep -m1 '  obligation' | sed 's/  obligation //')"; else echo "MUTANT $P/$n: MISSED (exit $rc)"; fail=1; fi
 done
 for f in selftest/benign/$P/*.patch; do
